@@ -101,6 +101,7 @@ def enum_units(tier, seed):
     for mode in MODES:
         units.append({"t": "via-program", "mode": mode, "seed": seed})
         units.append({"t": "via-assembly", "mode": mode, "seed": seed})
+    units.append({"t": "interleaved", "seed": seed})
     units.append({"t": "ptr16"})
     units.append({"t": "ptr24"})
     return {"units": units, "exhaustive": tier == "thorough"}
@@ -249,6 +250,37 @@ def run_case(case) -> Outcome:
         out.evals, out.nontrivial = len(offs), len(offs)
         out.labels = [f"via-assembly:{mode}"]
         out.sample = {"mode": mode, "positions": len(offs), "first": lines[:3]}
+        return out
+    if t == "interleaved":
+        # three assemblers alive at once, one per mode, asked in turn about the same offset (and so, again and again, about the same
+        # bank numbers): each answers with its own mapping
+        from a816.program import Program
+
+        _, r2s, _ = _funcs()
+        progs = {}
+        for mode in MODES:
+            progs[mode] = Program()
+            progs[mode].set_mapping(mode)
+        offs = sorted({b + d for b in range(0, 0x400000, 0x8000) for d in (0, 0x7FFF)} | set(range((case["seed"] * 977) % 1021, 0x400000, 1021)))
+        n = 0
+        for o in offs:
+            for mode in MODES:
+                a = busmodel.rom_to_snes(o, mode)
+                if busmodel.builtin(mode).kind(a) != "rom":
+                    continue
+                try:
+                    phys = progs[mode].get_physical_address(r2s(o, driver.rom_type(mode)))
+                except Exception as e:
+                    phys = type(e).__name__
+                n += 1
+                if phys != o:
+                    out.bad(f"interleaved:{mode}", {"t": "interleaved", "seed": case["seed"]}, f"{mode}: asked right after the other modes, rom_to_snes({o:#x})={a:#x} translates to {phys}")
+                    break
+            if out.violations:
+                break
+        out.evals, out.nontrivial = n, n
+        out.labels = ["interleaved"]
+        out.sample = {"offsets": len(offs), "modes": list(MODES)}
         return out
     if t == "ptr16":
         n = 0
